@@ -1133,6 +1133,20 @@ class Interp(object):
     def comp_rec(self, node, gens, gi, env, out):
         g = gens[gi]
         it = self.eval(g.iter, env)
+        if isinstance(it, Opaque) and it.tag == 'gridsel' and gi == 0:
+            # [item for sublist in G[mask] for item in sublist]: the members of the selected cells
+            ok = (len(gens) == 2 and not g.ifs and not gens[1].ifs and isinstance(g.target, ast.Name)
+                  and isinstance(gens[1].iter, ast.Name) and gens[1].iter.id == g.target.id
+                  and isinstance(gens[1].target, ast.Name) and isinstance(node.elt, ast.Name) and node.elt.id == gens[1].target.id)
+            G, bm = it.payload
+            mem = G.grid.members
+            if not ok or mem is None:
+                raise Unsupported('comprehension over selected cells of an object array (only the flattening form is modelled)')
+            nz, ev, af, bf = mem
+            kq = z3.Int('fl_k')
+            self.ctx.use_axiom('flattening the selected cells lists exactly the events stored in cells where the mask holds')
+            return Opaque('indexlist', lambda t, nz=nz, ev=ev, af=af, bf=bf, bm=bm, kq=kq:
+                          z3.Exists([kq], z3.And(0 <= kq, kq < nz, ev(kq) == t, bm(af(kq), bf(kq))), patterns=[ev(kq)]))
         if isinstance(it, (SymSeq, RangeV)) and not self.is_concrete_iter(it):
             if len(gens) != 1:
                 raise Unsupported('nested comprehension over a symbolic sequence')
@@ -1154,6 +1168,8 @@ class Interp(object):
         return None
 
     def is_concrete_iter(self, it):
+        if isinstance(it, NDArr):
+            return isinstance(it.shape[0], int)
         if isinstance(it, RangeV):
             return isinstance(it.start, int) and isinstance(it.stop, int)
         if isinstance(it, SymSeq):
@@ -1920,6 +1936,8 @@ class Interp(object):
             return self.eval(fv.node.body, env)
         if len(self.fn_stack) > 40:
             raise Unsupported('call depth exceeded')
+        if len(self.fn_stack) == getattr(self, 'entry_depth', -1):
+            self.top_env = env            # locals of the function under contract (contracts may state obligations on them)
         self.fn_stack.append(q)
         self.trace_calls.append(q)
         saved_lc = self.loop_counters.get(q)
@@ -2155,6 +2173,8 @@ class Interp(object):
             self.exec_block(node.orelse, env)
             return
         if spec is None:
+            if self.scatter_loop(node, env, it):
+                return
             if self.map_style_loop(node, env, it, q, k):
                 return
             self.unsupported(node, 'loop #%d of %s over a symbolic-length iterable has no invariant' % (k, q))
@@ -2188,6 +2208,57 @@ class Interp(object):
                 cur = env[nm]
                 if isinstance(cur, (Seq, SymSeq, PDict, Opaque)) or cur is None:
                     env[nm] = Opaque('havoc', nm)
+
+    # -- scatter loops: "for e, a, b in zip(E, A, B): G[a, b].append(e)" ------------------------------------------
+    def scatter_loop(self, node, env, it):
+        """The loop whose body is the single statement G[a, b].append(e) over zip(E, A, B) of three 1-d integer arrays,
+        G an object array whose cells were all initialised to empty lists: afterwards cell (i, j) holds exactly the E[k]
+        with (A[k], B[k]) == (i, j) (negative indices wrap), in order of k.  Template invariant: after k iterations the
+        cells hold the first k events; an out-of-range pair at the first offending k raises IndexError."""
+        if node.orelse or len(node.body) != 1 or not isinstance(it, ZipV) or len(it.parts) != 3:
+            return False
+        st = node.body[0]
+        if not (isinstance(st, ast.Expr) and isinstance(st.value, ast.Call) and isinstance(st.value.func, ast.Attribute)
+                and st.value.func.attr == 'append' and len(st.value.args) == 1 and not st.value.keywords
+                and isinstance(st.value.args[0], ast.Name) and isinstance(st.value.func.value, ast.Subscript)
+                and isinstance(st.value.func.value.value, ast.Name)):
+            return False
+        sub = st.value.func.value
+        key = sub.slice
+        if not (isinstance(key, ast.Tuple) and len(key.elts) == 2 and all(isinstance(e_, ast.Name) for e_ in key.elts)):
+            return False
+        if not (isinstance(node.target, ast.Tuple) and all(isinstance(t, ast.Name) for t in node.target.elts) and len(node.target.elts) == 3):
+            return False
+        tn = [t.id for t in node.target.elts]
+        used = [st.value.args[0].id, key.elts[0].id, key.elts[1].id]
+        if sorted(tn) != sorted(used) or len(set(tn)) != 3:
+            return False
+        G = self.lookup(sub.value.id, env)
+        g = getattr(G, 'grid', None)
+        if not (isinstance(G, NDArr) and G.dtype == 'object' and g is not None and g.initialised and g.members is None and G.ndim == 2):
+            return False
+        parts = [self.force(p_) for p_ in it.parts]
+        if not all(isinstance(p_, NDArr) and p_.ndim == 1 and p_.dtype in ('int', 'uint') for p_ in parts):
+            return False
+        n0 = parts[0].shape[0]
+        from .npmodel import zeq
+        for p_ in parts[1:]:
+            if not zeq(p_.shape[0], n0):
+                raise Unsupported('scatter loop over arrays whose lengths are not syntactically equal')
+        fns = dict((name, self.np.named_fn(p_.fn)) for name, p_ in zip(tn, parts))
+        ev, af, bf = fns[used[0]], fns[used[1]], fns[used[2]]
+        nz = self.np.dim_z(n0)
+        d0, d1 = self.np.dim_z(G.shape[0]), self.np.dim_z(G.shape[1])
+        k = self.ctx.fresh_int('sc_k')
+        bad = z3.Exists([k], z3.And(0 <= k, k < nz, z3.Not(z3.And(-d0 <= af(k), af(k) < d0, -d1 <= bf(k), bf(k) < d1))), patterns=[af(k)])
+        if self.ctx.branch(bad, safety=True):
+            raise_py('IndexError', 'index out of bounds for the object array')
+        self.ctx.use_axiom('loop-template:scatter-append (cell (i,j) of G = the e_k with (a_k, b_k) = (i, j), in order)')
+        g.members = (nz, ev, lambda t, af=af, d0=d0: z3.If(af(t) < 0, af(t) + d0, af(t)),
+                     lambda t, bf=bf, d1=d1: z3.If(bf(t) < 0, bf(t) + d1, bf(t)))
+        for name in tn:
+            env[name] = Poison('loop variable after a scatter loop') if 'Poison' in globals() else None
+        return True
 
     # -- map-style loops: "for x in xs: ...; out.append(f(x))" --------------------------------------
     def map_style_loop(self, node, env, it, q, k):
